@@ -34,12 +34,20 @@ type vImg struct {
 	certVA, certSize int
 }
 
-// vWellFormedImage returns a symbolic image restricted to the well-formed EFI-style PE images of
-// the shape given by the parameters (DESIGN.md C01, predicate WF).  Every header field that the
-// hash depends on, every section offset/size, the certificate directory and the file length are
-// symbolic; e_lfanew, the section count, PE32/PE32+ and NumberOfRvaAndSizes=16 are the shape.
-func vWellFormedImage(gapFree bool) *vImg {
-	img := vsym.Bytes("img", vsymC01MaxLen)
+// vHdrEnd is the end of the section table for the shape given by the parameters.
+func vHdrEnd() int {
+	optSize := 96 + 128
+	if vsymC01Plus == 1 {
+		optSize = 112 + 128
+	}
+	return vsymC01Lfanew + 24 + optSize + 40*vsymC01Nsec
+}
+
+// vWF is the well-formedness predicate of DESIGN.md C01 over the raw bytes of an image of the shape
+// given by the parameters (len(img) >= vHdrEnd() must already be known).  It returns the condition
+// and the header fields the specification's hash depends on.  No branching: usable both as an
+// assumption (C01) and as an assertion about a produced file (C03).
+func vWF(img []byte) (*vImg, bool) {
 	L := len(img)
 	e := vsymC01Lfanew
 	opt := e + 24
@@ -56,48 +64,51 @@ func vWellFormedImage(gapFree bool) *vImg {
 	sectab := opt + optSize
 	nsec := vsymC01Nsec
 	hdrEnd := sectab + 40*nsec
-	vsym.Assume(L >= hdrEnd)
-	vsym.Assume(vsym.And(img[0] == 'M', img[1] == 'Z', v32(img, 0x3c) == uint32(e)))
-	vsym.Assume(vsym.And(img[e] == 'P', img[e+1] == 'E', img[e+2] == 0, img[e+3] == 0))
-	vsym.Assume(v16(img, e+4) == 0x8664)                     // Machine
-	vsym.Assume(v16(img, e+6) == uint16(nsec))               // NumberOfSections
-	vsym.Assume(vsym.And(v32(img, e+12) == 0, v32(img, e+16) == 0)) // no COFF symbol table
-	vsym.Assume(v16(img, e+20) == uint16(optSize))           // SizeOfOptionalHeader
-	vsym.Assume(v16(img, opt) == magic)
-	vsym.Assume(v32(img, nrvaOff) == 16)
 	sh := int(v32(img, opt+60))
-	vsym.Assume(vsym.And(sh >= hdrEnd, sh <= L))
 	certVA, certSize := int(v32(img, dd4)), int(v32(img, dd4+4))
 	noCert := vsym.And(certVA == 0, certSize == 0)
-	if vsymC01NoCert == 1 {
-		vsym.Assume(noCert)
-	}
-	vsym.Assume(vsym.Or(noCert, vsym.And(certSize > 0, certVA >= sh, certVA+certSize == L, certVA%8 == 0, certSize%8 == 0)))
 	bodyEnd := L - certSize
+	ok := vsym.And(
+		img[0] == 'M', img[1] == 'Z', v32(img, 0x3c) == uint32(e),
+		img[e] == 'P', img[e+1] == 'E', img[e+2] == 0, img[e+3] == 0,
+		v16(img, e+4) == 0x8664,             // Machine
+		v16(img, e+6) == uint16(nsec),       // NumberOfSections
+		v32(img, e+12) == 0, v32(img, e+16) == 0, // no COFF symbol table
+		v16(img, e+20) == uint16(optSize),   // SizeOfOptionalHeader
+		v16(img, opt) == magic,
+		v32(img, nrvaOff) == 16,
+		sh >= hdrEnd, sh <= L,
+		vsym.Or(noCert, vsym.And(certSize > 0, certVA >= sh, certVA+certSize == L, certVA%8 == 0, certSize%8 == 0)),
+	)
+	if vsymC01NoCert == 1 {
+		ok = vsym.And(ok, noCert)
+	}
 	v := &vImg{img: img, opt: opt, ck: opt + 64, dd4: dd4, sectab: sectab, nsec: nsec, sh: sh, certVA: certVA, certSize: certSize}
 	for i := 0; i < nsec; i++ {
 		h := sectab + 40*i
-		vsym.Assume(img[h] != '/')            // no string-table names
-		vsym.Assume(v16(img, h+32) == 0)      // NumberOfRelocations
 		ptr, size := int(v32(img, h+20)), int(v32(img, h+16))
+		ok = vsym.And(ok, img[h] != '/', v16(img, h+32) == 0) // no string-table names, no relocations
 		if vsymC01NonEmpty == 1 {
-			vsym.Assume(size != 0)
+			ok = vsym.And(ok, size != 0)
 		}
-		vsym.Assume(vsym.Implies(size != 0, vsym.And(ptr >= sh, ptr+size <= bodyEnd)))
+		ok = vsym.And(ok, vsym.Implies(size != 0, vsym.And(ptr >= sh, ptr+size <= bodyEnd)))
 		for _, o := range v.secs {
-			vsym.Assume(vsym.Implies(vsym.And(size != 0, o.size != 0), vsym.Or(ptr+size <= o.ptr, o.ptr+o.size <= ptr)))
+			ok = vsym.And(ok, vsym.Implies(vsym.And(size != 0, o.size != 0), vsym.Or(ptr+size <= o.ptr, o.ptr+o.size <= ptr)))
 		}
 		v.secs = append(v.secs, vSec{ptr, size})
 	}
-	if gapFree {
-		// sections with data tile [SizeOfHeaders, end of last section) in file order
-		// (stated for <= 2 sections; used by the coverage harness only)
-		end := sh
-		for _, s := range v.secs {
-			_ = s
-		}
-		_ = end
-	}
+	return v, ok
+}
+
+// vWellFormedImage returns a symbolic image restricted to the well-formed EFI-style PE images of
+// the shape given by the parameters.  Every header field that the hash depends on, every section
+// offset/size, the certificate directory and the file length are symbolic; e_lfanew, the section
+// count, PE32/PE32+ and NumberOfRvaAndSizes=16 are the shape.
+func vWellFormedImage(gapFree bool) *vImg {
+	img := vsym.Bytes("img", vsymC01MaxLen)
+	vsym.Assume(len(img) >= vHdrEnd())
+	v, ok := vWF(img)
+	vsym.Assume(ok)
 	return v
 }
 
